@@ -271,6 +271,8 @@ pub struct World {
     pub step_events: Vec<(u32, u32)>,
     /// datagram delivered in the current step (u32::MAX if the step was not a delivery)
     pub step_dgram: u32,
+    /// nodes that are suspended until the given instant
+    pub suspended: BTreeMap<u32, Ns>,
     /// reset-key seed per node (so that oracles can recompute stateless reset tokens)
     pub reset_key_seeds: BTreeMap<u32, u64>,
     /// largest one-way delay any datagram experienced so far
@@ -358,6 +360,7 @@ impl World {
             last_delivered_sent_at: BTreeMap::new(),
             step_events: Vec::new(),
             step_dgram: u32::MAX,
+            suspended: BTreeMap::new(),
             reset_key_seeds: BTreeMap::new(),
             max_owd: 0,
         }
@@ -1151,6 +1154,19 @@ impl World {
                 return;
             }
             let ev = self.queue.remove(&(t, s)).unwrap();
+            // a suspended node (a process stopped, a laptop asleep) sees its datagrams and timers
+            // only when it wakes up — all at once, in their original order
+            let target = match &ev {
+                Ev::Deliver(id) => self.addr_map.get(&self.dgrams[*id as usize].dst).copied(),
+                Ev::Timer { inc, .. } => Some(self.conns[*inc as usize].node),
+                Ev::Wake(_) => None,
+            };
+            if let Some(until) = target.and_then(|n| self.suspended.get(&n).copied()) {
+                if until > t {
+                    self.schedule(until, ev);
+                    continue;
+                }
+            }
             self.now = t;
             self.step += 1;
             self.step_events.clear();
